@@ -209,8 +209,40 @@ void model_seekg(std::streampos const p)
   else
     m.off = np;
 }
+// seekg(off, dir): same protocol with rdbuf()->pubseekoff(off, dir, in); for the in-memory sources modelled here the
+// target is base(dir) + off.  (Not called by the pinned code; present so that an equivalent reformulation of
+// set_position is judged on its behaviour instead of ending as "unmodelled external".)
+template <typename Ch>
+void model_seekg_off(std::streamoff const off, std::ios_base::seekdir const dir)
+{
+  auto &m = msv<Ch>;
+  ++m.seeks;
+  *m.state &= ~eofbit;
+  if (*m.state != goodbit)
+  {
+    *m.state |= failbit;
+    return;
+  }
+  long const base{dir == std::ios_base::beg ? 0L : dir == std::ios_base::cur ? static_cast<long>(m.off) : static_cast<long>(m.n)};
+  long np{0};
+  bool const ovf{__builtin_add_overflow(base, static_cast<long>(off), &np)};
+  if (m.noseek || ovf || np < 0 || np > m.n)
+    *m.state |= failbit;
+  else
+    m.off = np;
+}
 }
 
+extern "C" std::istream &c12_seekg_off(std::istream *const self, std::streamoff const off, std::ios_base::seekdir const dir)
+{
+  c12::model_seekg_off<char>(off, dir);
+  return *self;
+}
+extern "C" std::wistream &c12_wseekg_off(std::wistream *const self, std::streamoff const off, std::ios_base::seekdir const dir)
+{
+  c12::model_seekg_off<wchar_t>(off, dir);
+  return *self;
+}
 extern "C" int c12_get(std::istream *) { return c12::model_get<char>(); }
 extern "C" std::streampos c12_tellg(std::istream *) { return c12::model_tellg<char>(); }
 extern "C" std::istream &c12_seekg(std::istream *const self, std::streampos const p)
